@@ -393,7 +393,7 @@ def guards_present(f, rep, inv):
     need = [('aml::Arg', 'self.0', 6), ('aml::Local', 'self.0', 7)]
     for ty, atom, mx in need:
         I = new_interp(f); sv = I.sym_value(ty, 'self'); emit_value(I, sv, ty)
-        ok = any(g['cond'] == cmp('le', ('a', atom), C(mx)) for g in I.guards)
+        ok = refused(I.guards, cmp('le', ('a', atom), C(mx)))
         rep.ob('guard-present', ty, ok, '%s no longer refuses operands above %d' % (ty, mx))
     for ty in ('cedt::PortAssociation', 'hest::PciDevice', 'rimt::PciDevice', 'viot::PciDevice'):
         r = inv.get(ty, {})
@@ -403,7 +403,7 @@ def guards_present(f, rep, inv):
     if b:
         I = new_interp(f); sv = I.sym_value('tpm2::Tpm2', 'self')
         run_fn(I, b['def'], [RefV(Cell(sv), True)] + [I.sym_value(norm_ty(t), n) for n, t in params_of(b)[1:]])
-        ok = any(g['cond'] == cmp('eq', ('a', 'self.header.length'), C(52)) for g in I.guards)
+        ok = refused(I.guards, cmp('eq', ('a', 'self.header.length'), C(52)))
         rep.ob('guard-present', 'tpm2::Tpm2::set_log_area', ok, 'set_log_area no longer refuses a second call (length == 52 assertion)')
 
 def mir_cross(ctx, rep, visited_casts, visited_arith):
